@@ -341,6 +341,27 @@ impl<'a> LineBreaker<'a> {
                 }
             }
 
+            // TeX.2021.879
+            // Prune unwanted nodes at the beginning of the next line: discardable
+            // nodes (glue, penalties, math nodes and explicit kerns) that follow
+            // the break are dropped, up to but not including the next break point.
+            // As in TeX, this is skipped if post-break material of a discretionary
+            // starts the next line.
+            let post_disc_break = disc_post_break_nodes
+                .as_ref()
+                .is_some_and(|nodes| !nodes.is_empty());
+            if !post_disc_break {
+                if let Some(next_break_point) = break_points.get(line_index + 1) {
+                    while start_of_line < *next_break_point
+                        && h_list
+                            .get(start_of_line)
+                            .is_some_and(|node| !node.non_discardable())
+                    {
+                        start_of_line += 1;
+                    }
+                }
+            }
+
             // TeX.2021.886
             // Unlike \leftskip, there is no check if the glue here is zero.
             inner_list.push(
